@@ -2,5 +2,6 @@ SPECIFICATION Spec
 CONSTANTS
   MaxLen = 20
   MaxOps = 0
+  Kinds = {"d"}
   HistOn = FALSE
 INVARIANTS RootsBinary WitnessesVerify AddWitnessVerifies TamperRejected RefsStored RecoverSame
